@@ -115,6 +115,9 @@ func (p *Program) instantiate(ob *Obligation) {
 		apps := groundApps(terms)
 		var added []*Term
 		for _, ax := range p.spec.Axioms {
+			if ax.Local && !hasProp(ob.Uses, ax.Name) {
+				continue
+			}
 			for _, app := range apps[ax.Trigger] {
 				key := ax.Name + "|" + app.String()
 				if done[key] {
